@@ -2,26 +2,73 @@ package hackpadfs
 
 import "strings"
 
+// stripErrPathPrefix translates the paths of an error returned by a mounted (or sub) file system, where the caller's
+// 'name' is known as 'mountSubPath', back into the caller's namespace.
 func stripErrPathPrefix(err error, name, mountSubPath string) error {
 	if err == nil {
 		return err
 	}
-	prefix := strings.TrimSuffix(mountSubPath, name)
+	toCaller := callerPathFunc(name, mountSubPath)
 	switch err := err.(type) {
 	case *PathError:
 		return &PathError{
 			Op:   err.Op,
-			Path: strings.TrimPrefix(err.Path, prefix),
+			Path: toCaller(err.Path),
 			Err:  err.Err,
 		}
 	case *LinkError:
 		return &LinkError{
 			Op:  err.Op,
-			Old: strings.TrimPrefix(err.Old, prefix),
-			New: strings.TrimPrefix(err.New, prefix),
+			Old: toCaller(err.Old),
+			New: toCaller(err.New),
 			Err: err.Err,
 		}
 	default:
 		return err
+	}
+}
+
+// callerPathFunc returns a func converting paths of the inner file system into the caller's paths.
+// Either the inner path is longer (a sub FS: inner = base/name) or the caller's path is longer (a mount: name = point/inner).
+func callerPathFunc(name, subPath string) func(string) string {
+	identity := func(p string) string { return p }
+	if name == subPath || !ValidPath(name) || !ValidPath(subPath) {
+		return identity
+	}
+	switch {
+	case subPath == "." || strings.HasSuffix(name, "/"+subPath):
+		// mount: prepend the mount point
+		point := name
+		if subPath != "." {
+			point = strings.TrimSuffix(name, "/"+subPath)
+		}
+		return func(p string) string {
+			switch {
+			case !ValidPath(p):
+				return p
+			case p == ".":
+				return point
+			default:
+				return point + "/" + p
+			}
+		}
+	case name == "." || strings.HasSuffix(subPath, "/"+name):
+		// sub FS: remove the base directory
+		base := subPath
+		if name != "." {
+			base = strings.TrimSuffix(subPath, "/"+name)
+		}
+		return func(p string) string {
+			switch {
+			case p == base:
+				return "."
+			case strings.HasPrefix(p, base+"/"):
+				return strings.TrimPrefix(p, base+"/")
+			default:
+				return p
+			}
+		}
+	default:
+		return identity
 	}
 }
